@@ -26,9 +26,9 @@ FAMILIES = {
              "theorems": ["cran_struct_total", "cran_ok_on_valid"] + _thms("cran")},
     "rubygems": {"files": ["Rubygems.v", "RubygemsProofs.v"],
                  "theorems": _thms("rubygems", ["rubygems_trans_all_strings", "rubygems_eq_equiv_all_strings"])},
-    "debian": {"files": ["Debian.v", "DebianProofs.v"], "theorems": _thms("debian", ["debian_parse_valid"])},
-    "redhat": {"files": ["Redhat.v", "RedhatProofs.v"],
-               "theorems": _thms("redhat", ["redhat_trans_all_strings", "redhat_eq_equiv_all_strings"])},
+    "debian": {"files": ["Debian.v", "DebianProofs.v", "DebianLoopProofs.v"], "theorems": _thms("debian", ["debian_parse_valid", "debian_loop_equiv"])},
+    "redhat": {"files": ["Redhat.v", "RedhatProofs.v", "RedhatLoopProofs.v"],
+               "theorems": _thms("redhat", ["redhat_trans_all_strings", "redhat_eq_equiv_all_strings", "redhat_loop_equiv"])},
     "pypi": {"files": ["Pypi.v", "PypiProofs.v", "PypiParse.v", "PypiParseProofs.v"],
              "theorems": ["pypi_struct_total", "pypi_parse_valid", "pypi_total", "pypi_antisym", "pypi_refl", "pypi_struct_antisym", "pypi_struct_refl",
                           "pypi_struct_refl_refuted", "pypi_trans_on_valid", "pypi_eq_equiv", "pypi_trans_all_strings", "pypi_eq_equiv_all_strings"]},
@@ -91,8 +91,8 @@ META = {
                   "structures). strings.ToLower is modelled for ASCII and, through the generated toolchain table, for U+0080..U+052F (Latin-1, Latin Extended, "
                   "IPA, Greek, Cyrillic; every code point of that range is swept on each run for NuGet, Maven, PyPI); cased letters at or above "
                   "U+0530 are not modelled (such inputs are kept out of the correspondence and counted per ecosystem in input_distribution), math/big; regexp is modelled by hand-written scanners/matchers (checked by the parse correspondence on every string). "
-                  "Debian and Red Hat comparators are modelled as tokenise-then-compare, an equivalent form of the interleaved Go loops "
-                  "(equivalence checked by the correspondence). Maven: maven_parse_wf proves that the modelled tokeniser only builds well-formed token lists, so antisymmetry "
+                  "The Debian and Red Hat comparators are modelled as tokenise-then-compare AND as the literal interleaved Go loops, "
+                  "proved equal (debian_loop_equiv, redhat_loop_equiv). Maven: maven_parse_wf proves that the modelled tokeniser only builds well-formed token lists, so antisymmetry "
                   "and the laws on D hold for all byte strings. Keyword / weight tables of Maven, Alpine, Packagist, Debian and PyPI are "
                   "regenerated from the Go source (harness/cmd/semtables -> Semantic/Generated_Tables.v) on every run and USED by the models.",
     "design_ref": "DESIGN.md section 5 C07",
